@@ -267,11 +267,17 @@ impl Store {
 
         // Only take broadcast subscription if following. We initate the subscription here to
         // ensure we don't miss any messages between historical processing and starting the
-        // broadcast subscription.
-        let broadcast_rx = if should_follow {
-            Some(self.broadcast_tx.subscribe())
+        // broadcast subscription. The hand-off position is fixed in the same step, under the
+        // append lock (ids are assigned and frames broadcast under it): every frame up to
+        // `handoff_id` was appended before the subscription and is served by the historical
+        // scan if it is stored, every later frame reaches this subscription. Deciding the
+        // hand-off by the last scanned id instead drops an ephemeral frame that was broadcast
+        // during the scan whenever the scan also picks up a later stored frame.
+        let (broadcast_rx, handoff_id) = if should_follow {
+            let _append_guard = self.append_lock.lock().unwrap();
+            (Some(self.broadcast_tx.subscribe()), Some(scru128::new()))
         } else {
-            None
+            (None, None)
         };
 
         #[cfg(feature = "verif")]
@@ -309,6 +315,13 @@ impl Store {
                 let mut count = 0;
 
                 for frame in store.iter_frames(options.context_id, options.last_id.as_ref()) {
+                    // Frames past the hand-off position are delivered by the subscription
+                    if let Some(handoff_id) = handoff_id {
+                        if frame.id > handoff_id {
+                            break;
+                        }
+                    }
+
                     if let Some(TTL::Time(ttl)) = frame.ttl.as_ref() {
                         if is_expired(&frame.id, ttl) {
                             #[cfg(feature = "verif")]
@@ -373,12 +386,12 @@ impl Store {
                     let _vguard = vr_live.guard(vr_live.live());
                     #[cfg(feature = "verif")]
                     let tx = tx;
-                    let (last_id, mut count) = match done_rx {
+                    let mut count = match done_rx {
                         Some(done_rx) => match done_rx.await {
-                            Ok((id, count)) => (id, count),
+                            Ok((_last_id, count)) => count,
                             Err(_) => return, // Historical processing failed/cancelled
                         },
-                        None => (None, 0),
+                        None => 0,
                     };
 
                     // The historical frames alone may already satisfy the limit
@@ -397,9 +410,10 @@ impl Store {
                             }
                         }
 
-                        // Skip if we've already seen this frame during historical scan
-                        if let Some(last_scanned_id) = last_id {
-                            if frame.id <= last_scanned_id {
+                        // Skip what was appended before the subscription: the historical scan
+                        // covers it
+                        if let Some(handoff_id) = handoff_id {
+                            if frame.id <= handoff_id {
                                 continue;
                             }
                         }
